@@ -71,3 +71,4 @@ PROPS = {
 }
 
 HOOK_COMMITS = ['cb466a2']
+FIX_COMMITS = ['d9c6e7f', '4e65a31', '80b223b', '52f4f87', 'ecd0109']
